@@ -555,7 +555,12 @@ func (e *Exec) block(g *G, what string) {
 func (e *Exec) ready(g *G) {
 	raceReleaseMerge(unsafe.Pointer(&g.raceTok)) // the waker's operation happens before the wakee resumes
 	g.state = stRunnable
-	e.runq = push(e.runq, g)
+	if e.opts.RunNext {
+		// Go's own habit: a goroutine that has just been readied (woken or created) runs next
+		e.runq = pushFront(e.runq, g)
+	} else {
+		e.runq = push(e.runq, g)
+	}
 	e.touchG(g)
 }
 
@@ -783,7 +788,11 @@ type Options struct {
 	// goroutine is blocked (or after StarveSteps steps without running). A second family of base schedules next to the FIFO default: a
 	// deviation budget of d around it reaches executions in which one goroutine is delayed
 	// arbitrarily long, which a small delay bound around FIFO cannot reach.
-	Starve int
+	// RunNext selects the third family of base schedules: a goroutine that becomes runnable
+	// (woken by a channel operation, an unlock, ... or just created) goes to the *front* of the
+	// run queue, as the Go scheduler's runnext slot does, instead of to the back (FIFO).
+	RunNext bool
+	Starve  int
 	// StarveSteps bounds one starvation window (default 400 scheduling steps): after that many
 	// steps without running, the starved goroutine is scheduled like any other until its next
 	// operation, then starved again (a real scheduler delays a goroutine arbitrarily, not for ever).
